@@ -112,6 +112,39 @@ fn gen_c01(tier: &str, rng: &mut Rng) -> Vec<Case> {
         let id = cases.len();
         cases.push(mk_case(id, route, cfg, width, bytes, model, g("bytes"), "mutated"));
     }
+    // prefixes that use up (almost) the whole width: tiny content - also tables - in 1-3 nested
+    // prefixed blocks at widths 1..6, min_wrap_width(0..2), overflow, padding, max_wrap_width
+    let np = if thorough { 40000 } else { 3000 };
+    for _ in 0..np {
+        let content = *rng.pick(&["x", "x y", "", "&#8203;", "中", "<em>x</em>", "x<br>y", "<a href=\"u\">x</a>", "<table><tr><td>x</td></tr></table>", "<table><tr><td>x</td></tr><tr><td>hello</td></tr></table>", "<table><tr><td>a</td><td>b</td></tr></table>", "<table><tr><td></td></tr></table>", "<pre>a\tb</pre>", "<sup></sup>"]);
+        let mut html = content.to_string();
+        for _ in 0..rng.range(1, 3) {
+            html = match rng.below(6) {
+                0 => format!("<ul><li>{}</li></ul>", html),
+                1 => format!("<ol><li>{}</li></ol>", html),
+                2 => format!("<blockquote>{}</blockquote>", html),
+                3 => format!("<h{}>{}</h{}>", 1 + rng.below(3), html, 1),
+                4 => format!("<dl><dt>t</dt><dd>{}</dd></dl>", html),
+                _ => format!("<ol start=\"99\"><li>{}</li><li>z</li></ol>", html),
+            };
+        }
+        if rng.chance(1, 2) {
+            html = format!("<p>a</p>{}<p>b</p>", html);
+        }
+        let mut cfg = Cfg { deco: *rng.pick(&[0u8, 1, 2, 3]), ..Default::default() };
+        if rng.chance(1, 2) {
+            cfg.min_wrap = Some(rng.range(0, 3));
+        }
+        if rng.chance(1, 3) {
+            cfg.max_wrap = Some(rng.range(0, 10));
+        }
+        cfg.overflow = rng.chance(1, 3);
+        cfg.pad = rng.chance(1, 4);
+        cfg.no_borders = rng.chance(1, 5);
+        let width = rng.range(1, 8);
+        let id = cases.len();
+        cases.push(mk_case(id, 0, cfg, width, html.into_bytes(), Some(0), g("bytes"), "narrow_prefix"));
+    }
     // extreme attributes
     let extremes = [
         "<ol start=\"9223372036854775807\"><li>a</li><li>b</li></ol>",
@@ -405,8 +438,15 @@ fn gen_c10(tier: &str, rng: &mut Rng) -> Vec<Case> {
         } else {
             html
         };
+        let mut cfg = rand_cfg(rng, &[0, 1, 2, 3], true, true);
+        // one in four: the document carries its own sheet (hiding, white space, colour)
+        let html = if rng.chance(1, 4) {
+            cfg.doc_css = true;
+            format!("<style>p{{color:#f00}} li{{white-space:pre}} h2,h3,blockquote p{{display:none}} em{{background-color:#00f}}</style>{}", html)
+        } else {
+            html
+        };
         let bytes = html.into_bytes();
-        let cfg = rand_cfg(rng, &[0, 1, 2, 3], true, true);
         let nw = rng.range(2, 6);
         let mut widths: Vec<usize> = (0..nw).map(|_| if rng.chance(1, 6) { rng.range(0, 3) } else { rng.range(1, 100) }).collect();
         if rng.chance(1, 2) {
